@@ -457,48 +457,41 @@ Definition abi_classified (nonview : list (nat * bytes)) : bool :=
   forallb (fun cm => negb (Nat.eqb (classify (fst cm) (snd cm)) 2)) nonview
   && forallb (fun e => Nat.eqb (snd e) 3 || existsb (same_method (fst e)) nonview) classification.
 
-(** ** The calls the chain's own modules make into the system contracts (inventory regenerated from the Go
-    source by tools/gotocoq/modcalls): a call whose target is the packet contract is made FROM the xibc packet
-    module address, a call whose target is the endpoint contract FROM the aggregate module address (the two
-    callers the byte code accepts, see part B), every method the modules call there exists in the ABI inventory
-    and is a privileged method of [classification] or a view; CallPacket itself is such a call from the packet
-    module address to the packet contract; the two module accounts are different accounts. *)
+(** ** The calls the chain's own modules make into the system contracts.  Inventory regenerated from the Go
+    source by tools/gotocoq/modcalls: normalised (from, target, method) triples, calls followed interprocedurally
+    through wrappers and helpers ("?" = a component that could not be traced).  Obligation: a call whose target is
+    the packet contract is made FROM the xibc packet module address, a call whose target is the endpoint contract
+    FROM the aggregate module address (the two callers the byte code accepts, see part B); every method called
+    there is traced, exists in the ABI inventory and is a privileged method of [classification] or a view; both
+    contracts are actually called (an inventory that lost them proves nothing); the two module accounts differ.
+    Calls to other targets (token contracts, contract creation) are not C06's. *)
 Definition mc_pkt_from : bytes := B "x/xibc/core/packet/types.ModuleAddress".
 Definition mc_agg_from : bytes := B "x/aggregate/types.ModuleAddress".
-Definition mc_pkt_target (t : bytes) : bool :=
-  bytes_eqb t (B "&syscontracts/xibc_packet.PacketContractAddress") || bytes_eqb t (B "syscontracts/xibc_packet.PacketContractAddress").
-Definition mc_ep_target (t : bytes) : bool :=
-  bytes_eqb t (B "&syscontracts/xibc_endpoint.EndpointContractAddress") || bytes_eqb t (B "syscontracts/xibc_endpoint.EndpointContractAddress").
+Definition mc_pkt_target (t : bytes) : bool := bytes_eqb t (B "syscontracts/xibc_packet.PacketContractAddress").
+Definition mc_ep_target (t : bytes) : bool := bytes_eqb t (B "syscontracts/xibc_endpoint.EndpointContractAddress").
 
-Definition modcall := (bytes * bytes * nat * bytes * bytes * list bytes)%type.
+Definition modcall := (bytes * bytes * bytes)%type.
 
 Definition mc_method_ok (views : list (nat * bytes)) (c : nat) (m : bytes) : bool :=
   Nat.eqb (classify c m) 1 || existsb (same_method (c, m)) views.
 
 Definition modcall_ok (views : list (nat * bytes)) (e : modcall) : bool :=
-  let '(_, _, kind, from, target, methods) := e in
-  match kind with
-  | 0%nat => forallb (mc_method_ok views 0%nat) methods                       (* CallPacket(ctx, "method", ...) *)
-  | _ =>
-      if mc_pkt_target target then bytes_eqb from mc_pkt_from && forallb (mc_method_ok views 0%nat) methods
-      else if mc_ep_target target then bytes_eqb from mc_agg_from && forallb (mc_method_ok views 1%nat) methods
-      else true                                                               (* token contracts etc.: not C06's *)
-  end.
+  let '(from, target, method) := e in
+  if mc_pkt_target target then bytes_eqb from mc_pkt_from && mc_method_ok views 0%nat method
+  else if mc_ep_target target then bytes_eqb from mc_agg_from && mc_method_ok views 1%nat method
+  else true.
 
 Definition modcalls_ok (views : list (nat * bytes)) (calls : list modcall) (addrs : list (bytes * bytes)) : bool :=
   forallb (modcall_ok views) calls
-  && existsb (fun e : modcall => let '(_, fn, kind, from, target, _) := e in
-                Nat.eqb kind 1 && bytes_eqb fn (B "CallPacket") && bytes_eqb from mc_pkt_from && mc_pkt_target target) calls
+  && existsb (fun e : modcall => mc_pkt_target (snd (fst e))) calls
+  && existsb (fun e : modcall => mc_ep_target (snd (fst e))) calls
   && match addrs with
      | [(p1, n1); (p2, n2)] => negb (bytes_eqb n1 n2) && negb (bytes_eqb n1 []) && negb (bytes_eqb n2 [])
      | _ => false
      end.
 
-(** the privileged methods the Go modules actually exercise (for the evidence) *)
+(** the (contract, method) pairs the Go modules exercise on the two system contracts (for the evidence) *)
 Definition mc_exercised (calls : list modcall) : list (nat * bytes) :=
-  flat_map (fun e : modcall => let '(_, _, kind, _, target, methods) := e in
-              match kind with
-              | 0%nat => map (fun m => (0%nat, m)) methods
-              | _ => if mc_pkt_target target then map (fun m => (0%nat, m)) methods
-                     else if mc_ep_target target then map (fun m => (1%nat, m)) methods else []
-              end) calls.
+  flat_map (fun e : modcall => let '(_, target, method) := e in
+              if mc_pkt_target target then [(0%nat, method)]
+              else if mc_ep_target target then [(1%nat, method)] else []) calls.
